@@ -60,9 +60,37 @@ class StepHooks(Hooks):
             w_else = node.get("else") is not None and tast.contains(node["else"], lambda x: tast.is_field_write(x, "Steps::accepted"))
             if w_then and not w_else:
                 cands.append((len(parents), node))
+        self.accept_branch = "then"    # the branch of accept_if on which the step is accepted
         if cands:
             cands.sort(key=lambda t: -t[0])
             self.accept_if = cands[0][1]
+        else:
+            # reject-first form: `if <rejected> { ...; continue }` followed, in the same block, by the accepted-step code
+            for node, parents in tast.find_with_parents(fn_body, lambda x: x.get("k") == "If" and x.get("else") is None):
+                if tast.contains(node["then"], lambda x: tast.is_field_write(x, "Steps::accepted")):
+                    continue
+                stl = node["then"].get("stmts", []) if node["then"].get("k") == "Block" else []
+                last = stl[-1] if stl else None
+                if last is not None and last.get("k") in ("ExprStmt", "Semi"):
+                    last = last.get("e")
+                tail = node["then"].get("tail") if node["then"].get("k") == "Block" else None
+                ends = tail if tail is not None else last
+                if ends is None or ends.get("k") != "Continue":
+                    continue
+                if not tast.contains(node["then"], lambda x: tast.is_field_write(x, "Steps::rejected")):
+                    continue
+                blk = next((p for p in reversed(parents) if p.get("k") == "Block"), None)
+                if blk is None:
+                    continue
+                sib = list(blk.get("stmts", [])) + ([blk["tail"]] if blk.get("tail") is not None else [])
+                pos = next((i for i, st in enumerate(sib) if tast.contains(st, lambda z: z is node)), None)
+                if pos is None:
+                    continue
+                if any(tast.contains(st, lambda x: tast.is_field_write(x, "Steps::accepted")) for st in sib[pos + 1:]):
+                    cands.append((len(parents), node))
+            if len(cands) == 1:
+                self.accept_if = cands[0][1]
+                self.accept_branch = "else"
 
     # ---- trial-run rollback (inner loops are interpreted to a fix-point)
     LISTS = ("stages", "solout_calls", "interp_calls", "divs")
@@ -81,7 +109,9 @@ class StepHooks(Hooks):
         if id(node) in self.forced:
             return self.forced[id(node)]
         if node is self.accept_if:
-            return self.accept
+            if self.accept_branch == "then":
+                return self.accept
+            return {"then": "else", "else": "then"}.get(self.accept, self.accept)
         c = node["cond"]
         if is_dense_cond(node, cond):
             if self.dense == "else" and tast.contains(c, lambda x: x.get("k") == "Binary" and x["op"] == "Or"):
@@ -318,8 +348,17 @@ def _analyse_variants(facts, fn_def, max_split=5, **kw):
                 if not any(c2 is ev["node"] for _, c2 in scored):
                     scored.append((len(hit), ev["node"]))
     # NaN guards are always split: the two branches must not be merged for NaN reasoning
-    for n in tast.find(hk.main_loop, lambda z: z.get("k") == "If" and tast.contains(
-            z["cond"], lambda q: q.get("k") == "MethodCall" and q.get("name") in ("is_nan", "is_finite", "is_infinite"))):
+    is_guard = lambda z: z.get("k") == "If" and tast.contains(
+        z["cond"], lambda q: q.get("k") == "MethodCall" and q.get("name") in ("is_nan", "is_finite", "is_infinite"))
+    guards = list(tast.find(hk.main_loop, is_guard))
+    # ... also inside private helpers the interpreter steps into from the main loop (an error norm moved into a helper)
+    for c_ in tast.find(hk.main_loop, lambda z: z.get("k") in ("Call", "MethodCall") and facts.inlinable(z.get("def") or "")):
+        guards += tast.find(facts.bodies[c_["def"]]["body"], is_guard)
+    seen_g = set()
+    for n in guards:
+        if id(n) in seen_g:
+            continue
+        seen_g.add(id(n))
         if not any(c2 is n for _, c2 in scored):
             scored.append((100, n))
         # conditionals that enclose a NaN guard (up to the accept test) decide whether the guard runs at all
